@@ -186,6 +186,16 @@ end NASim.Gen
 namespace NASim.Gen
 open NASim
 
+/-- the theorem applied to the nine generated benchmarks of the repository (recorded decision
+streams, regenerated on every run): each has a goal-reaching history -/
+theorem C16_generated_benchmarks_solvable :
+    ∀ r ∈ Generated.gen_benchmark_runs, ∃ sc st, (∃ s', generate r.1 r.2 = .ok (sc, s')) ∧
+      ReachFlat sc st ∧ goal sc.net st = true := by
+  intro r hr
+  obtain ⟨sc, s', h⟩ := Generated.gen_benchmark_runs_return r hr
+  obtain ⟨st, h1, h2⟩ := C16_generated_solvable h (Generated.gen_benchmark_runs_constants r hr)
+  exact ⟨sc, st, ⟨s', h⟩, h1, h2⟩
+
 /-- C15/C16: the definitions of every generated scenario grant USER or ROOT, so the history
 theorems (C01–C05) hold of every history over a generated scenario's action space with no further
 hypothesis; instance: C04 (configuration immutable, progress monotone) -/
